@@ -1,2 +1,204 @@
-(* Proofs for property C04. *)
-From SC.Model Require Import Base.
+(* Proofs for property C04: evaluation never changes the calculator; sessions isolate and
+   persist correctly.  About the state machine Corr.step (the public API as operations) at
+   binary64 with the regenerated configuration. *)
+From Coq Require Import Floats Arith Lia.
+From SC.Model Require Import Base Num NumF64 Types Config Case Chrono UiTokens Rx Post Parser Items Interp
+     RuleFns Rules Format Lexer Api Run64 Corr.
+From SC.Proofs Require Import SessionLemmas.
+
+Local Open Scope nat_scope.
+
+(* state after a history *)
+Definition final (ck : clock) (m : mstate) (ops : list op) : mstate :=
+  fold_left (fun m o => fst (step ck m o)) ops m.
+
+Lemma run_app ck : forall ops1 ops2 m,
+  run ck m (ops1 ++ ops2) = run ck m ops1 ++ run ck (final ck m ops1) ops2.
+Proof.
+  induction ops1 as [|o r IH]; intros ops2 m; cbn [app run final fold_left]; [reflexivity|].
+  destruct (step ck m o) as [m' ob] eqn:E. cbn [fst]. rewrite IH. reflexivity.
+Qed.
+
+Lemma run_snoc ck ops o m :
+  run ck m (ops ++ [o]) = run ck m ops ++ [snd (step ck (final ck m ops) o)].
+Proof.
+  rewrite run_app. cbn [run]. destruct (step ck (final ck m ops) o) as [m' ob]. reflexivity.
+Qed.
+
+(* the operations that evaluate text or manage sessions (everything but the configuration
+   setters and registrations) *)
+Definition eval_op (o : op) : bool :=
+  match o with
+  | OExec _ _ | OExecFresh _ _ | ONewSession _ | OSetText _ _ | OSetLanguage _ _ | OExecSession _ | OGetTz => true
+  | _ => false
+  end.
+
+(* 1. Evaluating text never changes the calculator, nor any session *)
+Lemma execute_pure ck m lang text : fst (step ck m (OExec lang text)) = m.
+Proof. reflexivity. Qed.
+
+Lemma execute_obs ck m lang text :
+  snd (step ck m (OExec lang text)) =
+  match execute LX ck (m_cfg m) lang text with Ok r => MRes r | Panic st => MPanic st end.
+Proof. reflexivity. Qed.
+
+Lemma step_eval_cfg ck m o : eval_op o = true -> m_cfg (fst (step ck m o)) = m_cfg m.
+Proof.
+  destruct o; cbn [eval_op]; intro H; try discriminate; cbn [step fst]; try reflexivity.
+  - destruct (sess_get sid (m_sessions m)); reflexivity.
+  - destruct (sess_get sid (m_sessions m)); reflexivity.
+  - destruct (sess_get sid (m_sessions m)) as [se|]; [|reflexivity].
+    destruct (execute_session LX ck (m_cfg m) se) as [[se' r]|st]; reflexivity.
+Qed.
+
+Theorem eval_keeps_config ck : forall ops m,
+  forallb eval_op ops = true -> m_cfg (final ck m ops) = m_cfg m.
+Proof.
+  induction ops as [|o r IH]; intros m H; cbn [final fold_left]; [reflexivity|].
+  cbn [forallb] in H. apply andb_true_iff in H as [Ho Hr].
+  change (m_cfg (final ck (fst (step ck m o)) r) = m_cfg m).
+  rewrite IH by exact Hr. apply step_eval_cfg. exact Ho.
+Qed.
+
+(* the result of a text is determined by the configuration, the text and the clock only:
+   any evaluations (and session activity) before it do not change it *)
+Theorem history_independence ck ops m lang text :
+  forallb eval_op ops = true ->
+  snd (step ck (final ck m ops) (OExec lang text)) = snd (step ck m (OExec lang text)).
+Proof.
+  intro H. rewrite !execute_obs, (eval_keeps_config ck ops m H). reflexivity.
+Qed.
+
+(* in terms of observation lists: the last observation of  ops ++ [exec]  is the one of [exec] *)
+Corollary history_independence_run ck ops m lang text :
+  forallb eval_op ops = true ->
+  run ck m (ops ++ [OExec lang text]) = run ck m ops ++ run ck m [OExec lang text].
+Proof.
+  intro H. rewrite run_snoc, (history_independence ck ops m lang text H).
+  cbn [run]. destruct (step ck m (OExec lang text)) as [m' ob]. reflexivity.
+Qed.
+
+(* separate evaluations share no variables: every execute starts from the empty environment *)
+Theorem execute_fresh_env ck m lang text :
+  snd (step ck m (OExec lang text)) =
+  match eval_lines LX ck (m_cfg m) lang [] (split_lines text []) with
+  | Panic st => MPanic st
+  | Ok (os, _) => MRes {| er_status := true; er_lines := os |}
+  end.
+Proof.
+  rewrite execute_obs, execute_spec.
+  destruct (eval_lines LX ck (m_cfg m) lang [] (split_lines text [])) as [[os vs]|st]; reflexivity.
+Qed.
+
+(* 2. Sessions *)
+Lemma sess_get_put_same sid v l : sess_get sid (sess_put sid v l) = Some v.
+Proof.
+  induction l as [|[k v'] r IH]; cbn [sess_put sess_get].
+  - rewrite N.eqb_refl. reflexivity.
+  - destruct (N.eqb k sid) eqn:E; cbn [sess_get]; rewrite E; [reflexivity|exact IH].
+Qed.
+
+Lemma sess_get_put_other sid sid' v l : sid <> sid' -> sess_get sid' (sess_put sid v l) = sess_get sid' l.
+Proof.
+  intro Hne. induction l as [|[k v'] r IH]; cbn [sess_put sess_get].
+  - destruct (N.eqb sid sid') eqn:E; [apply N.eqb_eq in E; contradiction|reflexivity].
+  - destruct (N.eqb k sid) eqn:E; cbn [sess_get].
+    + apply N.eqb_eq in E. subst k.
+      destruct (N.eqb sid sid') eqn:E2; [apply N.eqb_eq in E2; contradiction|reflexivity].
+    + destruct (N.eqb k sid'); [reflexivity|exact IH].
+Qed.
+
+(* which session an operation addresses *)
+Definition op_session (o : op) : option N :=
+  match o with
+  | ONewSession s | OSetText s _ | OSetLanguage s _ | OExecSession s => Some s
+  | _ => None
+  end.
+
+(* isolation: whatever is done with (or without) other sessions, session [b] is untouched *)
+Theorem session_isolated ck m o b :
+  op_session o <> Some b -> sess_get b (m_sessions (fst (step ck m o))) = sess_get b (m_sessions m).
+Proof.
+  intro H.
+  destruct o; cbn [op_session] in H; cbn [step].
+  - reflexivity.
+  - reflexivity.
+  - cbn [fst m_sessions]. apply sess_get_put_other. congruence.
+  - destruct (sess_get sid (m_sessions m)) as [se|]; cbn [fst m_sessions]; [|reflexivity].
+    apply sess_get_put_other. congruence.
+  - destruct (sess_get sid (m_sessions m)) as [se|]; cbn [fst m_sessions]; [|reflexivity].
+    apply sess_get_put_other. congruence.
+  - destruct (sess_get sid (m_sessions m)) as [se|]; cbn [fst m_sessions]; [|reflexivity].
+    destruct (execute_session LX ck (m_cfg m) se) as [[se' r]|st]; cbn [fst m_sessions]; [|reflexivity].
+    apply sess_get_put_other. congruence.
+  - reflexivity.
+  - reflexivity.
+  - destruct (set_timezone (m_cfg m) v) as [[n o]|]; reflexivity.
+  - reflexivity.
+  - reflexivity.
+  - reflexivity.
+  - reflexivity.
+  - destruct (read_currency (m_cfg m) cur); reflexivity.
+  - destruct (tokenise_patterns LX ck (m_cfg m) lang patterns); [|reflexivity].
+    destruct (assoc lang (cf_rules (m_cfg m))); reflexivity.
+  - destruct (assoc lang (cf_rules (m_cfg m))) as [rs|]; [|reflexivity].
+    destruct (find_index _ rs); reflexivity.
+  - destruct (assoc name (cf_types (m_cfg m))); reflexivity.
+  - destruct (assoc name (cf_types (m_cfg m))) as [g|]; [|reflexivity].
+    destruct (nassoc index g); [reflexivity|].
+    destruct (tokenise_patterns LX ck (m_cfg m) (s "en") parse); reflexivity.
+Qed.
+
+Theorem sessions_isolated_history ck b : forall ops m,
+  Forall (fun o => op_session o <> Some b) ops ->
+  sess_get b (m_sessions (final ck m ops)) = sess_get b (m_sessions m).
+Proof.
+  induction ops as [|o r IH]; intros m H; cbn [final fold_left]; [reflexivity|].
+  inversion H as [|x l Ho Hr]; subst.
+  change (sess_get b (m_sessions (final ck (fst (step ck m o)) r)) = sess_get b (m_sessions m)).
+  rewrite IH by exact Hr. apply session_isolated. exact Ho.
+Qed.
+
+(* set_text followed by execute_session: every line of the new text is evaluated exactly once,
+   in order, against the variables the session already holds; the variables after the run are
+   stored back into the session *)
+Theorem set_text_then_execute ck m sid se text :
+  sess_get sid (m_sessions m) = Some se ->
+  let m1 := fst (step ck m (OSetText sid text)) in
+  match eval_lines LX ck (m_cfg m) (se_language se) (se_vars se) (split_lines text []) with
+  | Panic st => step ck m1 (OExecSession sid) = (m1, MPanic st)
+  | Ok (os, vs') =>
+    snd (step ck m1 (OExecSession sid)) = MRes {| er_status := true; er_lines := os |} /\
+    length os = length (split_lines text []) /\
+    option_map (fun s => se_vars s) (sess_get sid (m_sessions (fst (step ck m1 (OExecSession sid))))) = Some vs' /\
+    m_cfg (fst (step ck m1 (OExecSession sid))) = m_cfg m
+  end.
+Proof.
+  intros Hget m1. subst m1. cbn [step fst]. rewrite Hget. cbn [m_cfg m_sessions].
+  rewrite sess_get_put_same, execute_session_set_text.
+  destruct (eval_lines LX ck (m_cfg m) (se_language se) (se_vars se) (split_lines text [])) as [[os vs']|st] eqn:E;
+    [|reflexivity].
+  cbn [fst snd m_sessions m_cfg]. rewrite sess_get_put_same. cbn [option_map with_pos_vars se_vars].
+  repeat split. exact (eval_lines_length _ _ _ _ _ _ _ _ E).
+Qed.
+
+(* a second text on the same session sees the variables of the first, whatever the line counts *)
+Theorem session_persists ck m sid se text1 text2 os1 vs1 :
+  sess_get sid (m_sessions m) = Some se ->
+  eval_lines LX ck (m_cfg m) (se_language se) (se_vars se) (split_lines text1 []) = Ok (os1, vs1) ->
+  let m2 := final ck m [OSetText sid text1; OExecSession sid; OSetText sid text2] in
+  snd (step ck m2 (OExecSession sid)) =
+  match eval_lines LX ck (m_cfg m) (se_language se) vs1 (split_lines text2 []) with
+  | Panic st => MPanic st
+  | Ok (os2, _) => MRes {| er_status := true; er_lines := os2 |}
+  end.
+Proof.
+  intros Hget E1 m2. subst m2. cbn [final fold_left step fst]. rewrite Hget. cbn [m_cfg m_sessions fst].
+  rewrite sess_get_put_same, execute_session_set_text, E1. cbn [fst m_sessions m_cfg].
+  rewrite !sess_get_put_same. cbn [snd step fst m_cfg m_sessions].
+  rewrite sess_get_put_same.
+  change (set_text (with_pos_vars (set_text se text1) (length (split_lines text1 []) - 1) vs1) text2)
+    with (set_text (with_pos_vars se 0 vs1) text2).
+  rewrite execute_session_set_text. cbn [with_pos_vars se_language se_vars].
+  destruct (eval_lines LX ck (m_cfg m) (se_language se) vs1 (split_lines text2 [])) as [[os2 vs2]|st]; reflexivity.
+Qed.
